@@ -832,6 +832,37 @@ func KVAlphabet() []Op {
 	dwx("DeleteWithXattrs/_s", []string{"_s"}, 0)
 	dwx("DeleteWithXattrs/none", nil, 0)
 
+	// ---- UpdateXattrDeleteBody: set one xattr and remove the body, under a CAS ------------------
+	for _, tok := range []string{"C", "S"} {
+		tok := tok
+		add(Op{Name: "UpdateXattrDeleteBody/_s/" + tok, EP: "UpdateXattrDeleteBody",
+			Run: func(c *rosmar.Collection, env Env) Result {
+				cas, err := c.UpdateXattrDeleteBody(ctx, "k", "_s", 0, env.Cas(tok), map[string]any{"d": 1}, nil)
+				r := resErr(err)
+				r.Cas = cas
+				return r
+			},
+			Spec: func(pre Doc, env Env) Expect {
+				x := Expect{OutcomeProp: "C02", FailClasses: []string{"casmismatch", "missing"}}
+				if env.Cas(tok) != pre.Cas {
+					x.Succeeds = No
+					return x
+				}
+				if !pre.Live {
+					return Expect{} // no body to remove (absent with CAS 0, or a tombstone): spec-silent
+				}
+				x.Succeeds = Yes
+				x.Live = No
+				if len(sysOnly(pre.X)) == len(pre.X) {
+					// the named xattr is set, the other (system) xattrs stay; with user xattrs present the
+					// statement does not say whether this way of tombstoning drops them: silent then
+					x.XSet, x.X, x.XNamed = true, withX(pre.X, map[string]string{"_s": `{"d":1}`}, nil), map[string]bool{"_s": true}
+				}
+				x.ExpSet, x.Exp = true, 0
+				return x
+			}})
+	}
+
 	// ---- WithMeta --------------------------------------------------------------------------
 	metaNilBody := false
 	meta := func(del bool, oldTok, newTok string, tier int, withExp ...bool) {
